@@ -3,7 +3,8 @@ VERIF = os.path.dirname(os.path.dirname(os.path.dirname(os.path.abspath(__file__
 REPO = os.environ.get("VERIF_REPO", "/repo")
 LEAN = os.path.join(VERIF, "lean")
 WORK = os.path.join(VERIF, ".work")
-EVIDENCE = os.path.join(VERIF, "evidence")
+# evidence is only ever written for /repo itself; scratch-worktree runs (VERIF_REPO) write to .work
+EVIDENCE = os.path.join(VERIF, "evidence") if REPO == "/repo" else os.path.join(WORK, "evidence-scratch")
 CORPUS = os.path.join(VERIF, "corpus")
 KNOWN = os.path.join(VERIF, "known_findings.json")
 GUARD = "MITMPROXY_VERIF"
